@@ -668,7 +668,7 @@ def run_part_b(ctx):
     seeds = sorted({ctx.seed, 0, 12345})
     s0 = ctx.seed
     ctx.rule(f'C14-B: menu of {n} public calls on shared write-protected inputs under {G} ambient grids (one with a slot count N in force); oracle for every call = the '
-             f'same call made FIRST in a fresh interpreter (one subprocess per entry and grid); executed: every entry twice per seed '
+             f'same call made as the FIRST library call of a fresh process (one child forked per entry and grid from a template that has only imported the library); executed: every entry twice per seed '
              f'and grid; every ordered pair of entries on the base grid (the seed of the run; cheap second entries under 2 more seeds); every entry under every ordered grid switch '
              f'g1,g2,g1; every ordered pair of cheap entries across a grid switch; every ordered triple of 36 cheap entries (quick, list D3_QUICK) / of the cheap original + dtype + length-1 + layout entries plus every quadruple of 16 '
              f'cheapest (thorough); after every call: gv snapshot and argument bytes unchanged, no output shares '
